@@ -28,6 +28,7 @@ func init() {
 		gen.CheckRecursionFanout(c.Run, c.Prog)
 		loadErrorsTable(c)
 		conflictTerminationTable(c)
+		cliNoReadOfOut(c)
 		tick("others")
 		gen.PositiveControlPanics(c.Run, c.Prog)
 		tick("controls")
